@@ -420,7 +420,7 @@ func GenStruct(r *rand.Rand, o TypeOpts) *T {
 }
 
 // names include pairs that differ only in case (distinct fields for a case-sensitive matcher)
-var niceNames = []string{"id", "name", "value", "count", "ts", "data", "items", "tags", "score", "flag", "a", "b", "c", "x_1", "Y2", "_u", "camelCase", "snake_case", "UPPER", "n0",
+var niceNames = []string{"declinate", "macallums", "costarring", "liquid", "id", "name", "value", "count", "ts", "data", "items", "tags", "score", "flag", "a", "b", "c", "x_1", "Y2", "_u", "camelCase", "snake_case", "UPPER", "n0",
 	"ID", "Id", "Name", "A", "B", "upper", "CamelCase", "y2", "Ts"}
 var weirdNames = []string{"with-dash", "with space", "ünï", "q\"uote", "dot.ted", "1lead", "a/b", "emoji😀", "tab\tname", "back\\slash"}
 
